@@ -43,12 +43,16 @@ PARTIAL = ["every cq.* op of the driver now has a Coq-side model (Model/ChkC20Cq
            "the cq.* cases run on a g++ build of the driver (same flags and sanitizers): the order in which "
            "add_quadratic(enforce_variable(u), enforce_variable(v)) evaluates its arguments is unspecified in C++ and Model/Expr.v mirrors GCC "
            "(v first); clang evaluates u first, which changes variables() order only",
-           "the model functions of ChkC20Cqm.v that are not in g9's ExprOps (set_quadratic, Expression::fix_variable, scale, fix_variables copy "
-           "path, remove_constraints_if, is_onehot, energy) are tied by the per-case comparison only; g9's ExprInv / refinement theorems cover "
-           "the ops that go through ExprOps.mstep",
-           "functional specifications are theorems for the base operations (read-after-write), remove_interactions, substitute_variables, "
-           "bulk remove_variables (= iterated remove_variable) and dense construction (= the add_quadratic calls); an energy-level "
-           "specification of substitute_variables / change_vartype is not proved here",
+           "the model functions of ChkC20Cqm.v that are not in g9's ExprOps now have theorems (Proofs/ChkC20CqmFacts.v): ExprInv preservation for "
+           "set_quadratic, expression fix_variable, scale, the copying fix_variables path (over the new variable count) and "
+           "remove_constraints_if; functional statements for set_quadratic (read-back), fix_variable (variable gone), scale (energy * k; "
+           "Constraint::scale with its LE/GE flip keeps the satisfying samples for k <> 0), is_onehot (reflection), energy (= energy of the "
+           "abstraction). Still only compared per case: the VALUES produced by expression fix_variable and by the copying fix_variables path "
+           "(no energy-level theorem 'fixing = evaluating at the assignment' for these two), and QAddConCopyRaw with repeated labels",
+           "energy-level specification of substitute_variables / BQM change_vartype: proved by identifying AdjMore.substitute_variables with "
+           "g11's loop-shaped mirror (AdjSubstAll) and re-exporting its theorems; it needs 'no self-loops', which holds for every BQM object; "
+           "for a QuadraticModel with self-loops abc.h's substitute_variables is NOT the substitution (g11's refutation), the check only "
+           "compares the stored values there",
            "use-after-free through weak_ptr, signed overflow and allocator behaviour are not expressible in the model; they are covered only by the sanitizer run",
            "Python boundary: the catalogue of malformed calls is tied to the .pyx sources by translators/c20_py_surface.py (every "
            "argument-taking method of the six Cython classes must have a catalogue entry or a stated exemption), but it samples argument "
